@@ -15,6 +15,8 @@
 (*   BE ok     it returned                                                 *)
 (*   Q quiet   the harness saw no event for `beats` timer periods          *)
 (*   E         end of the run                                              *)
+(* (the lines also carry seq, k, g, ts, t, err, disturbed: bookkeeping and  *)
+(* diagnostics of the driver, not read here).                               *)
 (* The moment a submission takes effect is not logged: it lies somewhere   *)
 (* between SB and SE, and TLC searches the placement (action Place).  No   *)
 (* time stamp is read: whatever interleaving happened is what is judged.   *)
